@@ -224,8 +224,9 @@ def c04_structure_inverse(f, replay):
     before or after the insertion point, more than wrapper tokens — text, a leaf, or any node complete within that part —
     applies (the flag only inspects what the step *deletes*), but its inverse inherits the flag and now has to delete
     those tokens, which `content_between` counts as content: the inverse refuses with 'Structure gap-replace would
-    overwrite content'.  Same in upstream (ReplaceAroundStep.invert passes `structure` on).  No Transform operation of
-    the library emits such a step except set_node_markup to a leaf type (C04-leaf-retype).
+    overwrite content'.  Same in upstream (ReplaceAroundStep.invert passes `structure` on).  Transform operations of the
+    library emit such a step in two cases: set_node_markup to a leaf type (C04-leaf-retype) and a direct wrap() with a leaf
+    wrapper type.
     Class: the failing step is a replace-around step with structure = true; the part of its slice before the insertion
     point or the part after it is not closes-then-opens only; the inverse failed with that message."""
     st = replay.get("step") or {}
